@@ -227,12 +227,21 @@ func RunKilled(args []string, stdin []byte, state State, files map[string][]byte
 				}
 			}
 		}
+		// blocked for certain: some thread of the process sleeps in a pipe write and the directory did not change meanwhile
+		inPipe := false
+		if ws, err := filepath.Glob("/proc/" + strconv.Itoa(cmd.Process.Pid) + "/task/*/wchan"); err == nil {
+			for _, w := range ws {
+				if b, err := os.ReadFile(w); err == nil && strings.Contains(string(b), "pipe") {
+					inPipe = true
+				}
+			}
+		}
 		if cur == last {
 			stable++
 		} else {
 			last, stable = cur, 0
 		}
-		if stable >= 15 {
+		if (inPipe && stable >= 3) || stable >= 200 {
 			break
 		}
 	}
